@@ -26,10 +26,12 @@ def handler(c):
     atoms = Atoms("Ar" * n, positions=np.arange(3 * n, dtype=float).reshape(n, 3))
     atoms.set_constraint(FixCom())
     extra = {}
+    # committee predictions as the calculator stores them: an array, or a plain list / tuple of per-model predictions (any array-like is legal)
+    wrap = {"list": lambda x: [np.array(m, dtype=float).tolist() for m in x], "tuple": lambda x: tuple(np.array(m, dtype=float) for m in x)}.get(c.get("store"), lambda x: np.array(x, dtype=float))
     if c.get("forces_comm") is not None:
-        extra["forces_comm"] = np.array(c["forces_comm"], dtype=float)
+        extra["forces_comm"] = wrap(c["forces_comm"])
     if c.get("energies") is not None:
-        extra["energies"] = np.array(c["energies"], dtype=float)
+        extra["energies"] = wrap(c["energies"]) if c.get("store") != "tuple" else tuple(float(x) for x in c["energies"])
     atoms.calc = Committee(extra)
     late = c.get("late") or {}
     sim = AdaptiveForceBias(atoms, late.get("lo", c["lo"]), late.get("hi", c["hi"]), temperature=300.0, scheme=late.get("scheme", c["scheme"]),
